@@ -442,10 +442,13 @@ impl<'a> Parser<'a> {
 
     /// Parses multi-select lists (e.g., "[foo, bar, baz]")
     fn parse_multi_list(&mut self) -> ParseResult {
-        Ok(Ast::MultiList {
-            offset: self.offset,
-            elements: self.parse_list(Token::Rbracket)?,
-        })
+        let offset = self.offset;
+        let elements = self.parse_list(Token::Rbracket)?;
+        if elements.is_empty() {
+            let message = "Expected at least one expression in a multi-select list";
+            return Err(self.err(&Token::Rbracket, message, false));
+        }
+        Ok(Ast::MultiList { offset, elements })
     }
 
     /// Parse a comma separated list of expressions until a closing token.
